@@ -3,6 +3,7 @@ package main
 // Rules shared by several properties (lock balance; contradiction: dereference of a value known nil).
 
 import (
+	"fmt"
 	"go/token"
 	"go/types"
 	"strings"
@@ -246,5 +247,103 @@ func lostUpdateRule(id string, prefixes ...string) func(*Ctx) {
 			c.ok("methods", "", "no receiver-field assignment through a value receiver")
 		}
 		c.note("%s.no-lost-update-through-copy: %d methods/functions scanned", id, n)
+	}
+}
+
+// ruleC11PageStateUnderLock: every change of the pages' state made by a method of a secret — memcall Protect/Unlock/Free,
+// core.Wipe, the memguard buffer's Destroy — runs with the secret's rw held in write mode, so that it is atomic with the
+// reader count / closing flags it depends on (a protection flip outside the lock lands under a reader that entered in
+// between, which then faults).
+func ruleC11PageStateUnderLock(c *Ctx) {
+	u := c.U1
+	c.rule("C11.page-state-under-lock", "in the methods of both secrets every memcall Protect/Unlock/Free, core.Wipe and LockedBuffer.Destroy runs with rw write-locked (helpers inherit the state of their call sites)", 6)
+	n := 0
+	for _, be := range secBackends {
+		d := newLockDomain(u, be.pkg, be.typ, "rw")
+		for _, f := range d.funcs {
+			if f.Blocks == nil || d.entry[f] == 0 {
+				continue
+			}
+			allInstrs(f, func(i ssa.Instruction) {
+				if _, isCall := i.(*ssa.Call); !isCall {
+					return
+				}
+				what := ""
+				switch op := mcOp(i); op {
+				case "Protect", "Unlock", "Free":
+					what = "memcall." + op
+				}
+				if g := staticCallee(i); g != nil {
+					switch funcFullName(g) {
+					case fnCoreWipe:
+						what = "core.Wipe"
+					case "(*github.com/awnumar/memguard.LockedBuffer).Destroy":
+						what = "LockedBuffer.Destroy"
+					}
+				}
+				if what == "" {
+					return
+				}
+				n++
+				st := d.stateAt(i)
+				c.check(st == lsW, trimPkgDirs(shortName(f))+"/"+what, u.ipos(i), "rw write-locked", what+" runs while rw may be "+st.String()+": the page-state change is not atomic with the reader count — a reader that enters in between finds its pages flipped to no-access (SIGSEGV) or unmapped under it")
+			})
+		}
+	}
+	if n < 6 {
+		c.bad("secrets/page-ops", "", fmt.Sprintf("expected at least 6 page-state operations in the secrets' methods, found %d", n))
+	}
+}
+
+// condOnSameLock: wherever a struct with a mutex field and a sync.Cond field is built, the Cond is created on that very
+// mutex (sync.NewCond(<the value stored in the mutex field>)). Cond.Wait unlocks the Cond's own Locker: if that is another
+// lock, or the read side of the RWMutex (rw.RLocker()), Wait unlocks a lock that is not held (fatal error) or never
+// releases the one that is.
+func condOnSameLockRule(id string, specs ...[4]string) func(*Ctx) { // pkg, type, mutex field, cond field
+	return func(c *Ctx) {
+		u := c.U1
+		c.rule(id+".cond-on-same-lock", "every composite literal of a type that pairs a mutex with a sync.Cond creates the Cond with sync.NewCond(<the mutex stored in the same literal>) — not another lock, not its RLocker()", len(specs))
+		for _, sp := range specs {
+			n := 0
+			for _, f := range u.RepoFuncs {
+				if f.Pkg == nil || f.Pkg.Pkg.Path() != sp[0] || f.Blocks == nil {
+					continue
+				}
+				allInstrs(f, func(i ssa.Instruction) {
+					a, ok := i.(*ssa.Alloc)
+					if !ok || namedTypeName(a.Type()) != sp[1] {
+						return
+					}
+					fl := litFields(a)
+					cv, has := fl[sp[3]]
+					if !has {
+						return
+					}
+					n++
+					good := false
+					why := "the Cond field is not initialised with sync.NewCond(...)"
+					if call, isC := resolve(cv).(*ssa.Call); isC && staticIs(call, "sync.NewCond") {
+						lk := unwrapIface(call.Call.Args[0])
+						mv, hasM := fl[sp[2]]
+						switch {
+						case hasM && (resolve(lk) == resolve(mv) || lk == mv):
+							good = true
+						case !hasM:
+							// mutex embedded by value: NewCond(&lit.mutex)
+							if fa, isFA := lk.(*ssa.FieldAddr); isFA && fa.X == ssa.Value(a) && fieldName(fa.X.Type(), fa.Field) == sp[2] {
+								good = true
+							}
+						}
+						if !good {
+							why = "sync.NewCond is given " + describeOperand(lk) + ", not the mutex stored in field " + sp[2]
+						}
+					}
+					c.check(good, trimPkgDirs(shortName(f))+"/"+sp[1]+"."+sp[3], u.ipos(a), "sync.NewCond(<field "+sp[2]+">)", why+": Wait() would unlock a lock its caller does not hold (fatal \"unlock of unlocked mutex\") or sleep while still holding the real one")
+				})
+			}
+			if n == 0 {
+				c.bad(sp[1]+"/literal", "", "no composite literal of "+sp[1]+" with a Cond field found")
+			}
+		}
 	}
 }
